@@ -388,6 +388,146 @@ def group_worker(conn):
             pass
 
 
+# ------------------------------------------------------------------ schedex: the server's bookkeeping under thread interleavings
+class ServerRaceExec:
+    """The REAL mpservice manager Server object, created in this process and never serving a socket: its create / incref /
+    decref are called from simulated threads exactly as its per-connection handler threads call them (in-server proxies use
+    this shortcut path themselves).  One thread drops the last proxy of a hosted value while another hosts the SAME value again
+    through managed() (what a hosted method returning managed(self.inner) does for two clients); plus a plain incref / decref
+    race on one object.  Oracle: whoever still holds a proxy finds the object hosted, with a reference count equal to the number
+    of live proxies; once nobody does, the server hosts nothing."""
+
+    monitor = None
+    metrics = None
+
+    def __init__(self, cfg):
+        self.cfg = cfg
+
+    def body(self):
+        import multiprocessing
+        from mc import sched
+        import mpservice.multiprocessing.server_process as SP
+        cfg = self.cfg
+        s = sched.S()
+        c13_register = register
+        c13_register()
+        server = SP.Server(SP.ServerProcess._registry, None, multiprocessing.current_process().authkey, 'pickle')
+        cur = multiprocessing.current_process()
+        cur._manager_server = server
+        s.exit_hooks.append(lambda: (cur.__dict__.pop('_manager_server', None), server.listener.close()))
+        inner = [1, 2, 3]
+        held = {}
+        errs = []
+
+        def hand_out(name):
+            try:
+                held[name] = SP.managed_list(inner)
+            except BaseException as e:
+                if isinstance(e, sched.Abort):
+                    raise
+                errs.append((name, type(e).__name__, str(e)[:80]))
+
+        def drop(name):
+            try:
+                p = held.pop(name)
+                del p            # the finalizer of an in-server proxy calls server.decref in this thread
+            except BaseException as e:
+                if isinstance(e, sched.Abort):
+                    raise
+                errs.append((name, type(e).__name__, str(e)[:80]))
+
+        hand_out('p0')
+        ident = held['p0']._id
+        ts = []
+        for i, what in enumerate(cfg['threads']):
+            if what == 'drop0':
+                ts.append(threading.Thread(target=drop, args=('p0',), name=f't{i}-drop'))
+            elif what == 'again':
+                ts.append(threading.Thread(target=hand_out, args=(f'q{i}',), name=f't{i}-again'))
+            elif what == 'again_drop':
+                def both(n=f'q{i}'):
+                    hand_out(n)
+                    drop(n)
+                ts.append(threading.Thread(target=both, name=f't{i}-againdrop'))
+        for t in ts:
+            t.start()
+        for t in ts:
+            t.join()
+        live = len(held)
+        hosted = ident in server.id_to_obj and server.id_to_obj[ident][0] is inner
+        count = server.id_to_refcount.get(ident)
+        usable = None
+        if live:
+            try:
+                usable = len(next(iter(held.values()))) == 3
+            except BaseException as e:
+                if isinstance(e, sched.Abort):
+                    raise
+                usable = type(e).__name__      # (the message contains the id, a memory address)
+        held.clear()
+        left = [k for k in server.id_to_obj if k != '0']
+        return dict(live=live, hosted=hosted, count=count, usable=usable, errs=errs, left_after_all_dropped=left)
+
+    def observe(self, r):
+        if r.error is not None:
+            return r.error[0]
+        if r.exc is not None:
+            return 'exc:' + type(r.exc).__name__
+        return repr(r.value)[:300]
+
+    def verdict(self, r):
+        from mc.explore import default_verdict
+        v = default_verdict(r)
+        if v:
+            return v
+        o = r.value
+        if o['errs']:
+            return ('server-call-raised:' + o['errs'][0][1], repr(o))
+        if o['live']:
+            if not o['hosted']:
+                return ('premature-destruction:race', f'{o["live"]} live proxies but the value is no longer hosted: {o}')
+            if o['count'] != o['live']:
+                return ('refcount-differs-from-live-proxies', repr(o))
+            if o['usable'] is not True:
+                return ('proxy-unusable:race', repr(o))
+        elif o['hosted'] or o['count']:
+            return ('leaked-reference:race', repr(o))
+        if o['left_after_all_dropped']:
+            return ('leak-after-all-dropped:race', repr(o))
+        return None
+
+
+import threading  # noqa: E402
+
+from mc.explore import Harness as _Harness  # noqa: E402
+
+
+class ServerRaceH(_Harness):
+    name = 'server_races'
+    opts = dict(max_points=3000, timers='free', max_timer_fires=50)
+
+    def setup(self):
+        import multiprocessing.managers as MM
+        from mc import sched
+        import mpservice.multiprocessing.server_process as SP
+        codes = []
+        for f in (SP.Server.create, SP.Server.incref, SP.Server.decref, MM.Server.decref, MM.Server.incref):
+            codes += sched.all_codes(f)
+        return codes
+
+    def configs(self, tier):
+        d = 2 if tier == 'quick' else 3
+        return [dict(threads=['drop0', 'again'], bound=d, cap=100000), dict(threads=['drop0', 'again_drop'], bound=d, cap=100000),
+                dict(threads=['drop0', 'again', 'again_drop'], bound=d - 1, cap=100000),
+                dict(threads=['again', 'again_drop'], bound=d, cap=100000)]
+
+    def new(self, cfg):
+        return ServerRaceExec(cfg)
+
+
+HARNESSES = {'server_races': ServerRaceH}
+
+
 # ------------------------------------------------------------------ the search (master)
 def run(tier, seed, pool, t0):
     import multiprocessing
@@ -411,7 +551,7 @@ def run(tier, seed, pool, t0):
     stats = []
     hang = False
     try:
-        for kind in ('list', 'block', 'managed'):
+        for kind in ('list', 'block', 'managed') if not os.environ.get('VERIF_C13_ONLY_RACES') else ():
             cs = ConfigStats('histories', dict(object=kind, depth=depth if kind == 'list' else depth - 1))
             cs.t0 = time.time()
             seen = {INIT: []}
@@ -500,6 +640,10 @@ def run(tier, seed, pool, t0):
             p.join(30)
             if p.is_alive():
                 p.kill()
+    # thread interleavings inside the server (schedex on the worker pool)
+    from mc.explore import explore
+    race_stats = explore('checks.c13', ['server_races'], tier, seed, pool)
+    stats = stats + race_stats
     return report.conclude(
         PROPERTY, 'checks.c13', tier, seed, stats, t0, pool,
         assumptions=['every RPC is synchronous, so the driver fully orders each history (no scheduler nondeterminism)',
